@@ -160,7 +160,7 @@ fn main() {
             }
         }
         "layout" => {
-            let o = phys::layouts(arg_u64(&args, "--seed", 1), arg_u64(&args, "--count", 50), arg(&args, "--outdir").unwrap(), args.iter().any(|a| a == "--big"), arg(&args, "--ops"), arg(&args, "--impl"));
+            let o = phys::layouts(arg_u64(&args, "--seed", 1), arg_u64(&args, "--count", 50), arg(&args, "--outdir").unwrap(), args.iter().any(|a| a == "--big"), args.iter().any(|a| a == "--full-difat"), arg(&args, "--ops"), arg(&args, "--impl"));
             println!("STAT histories {}", o.histories);
             println!("STAT ops {}", o.ops);
             println!("STAT distinct {}", o.distinct.len());
